@@ -609,6 +609,8 @@ def check_paths(case, res):
         a, b = verdict(res[i]), verdict(res[i + 1])
         if a[0] == "panic" or b[0] == "panic":
             bad.append("panic: %r %r" % (a, b))
+        elif a[0] == "err" and b[0] == "err":
+            continue    # both reject; with several faulty attributes the first error depends on hash order
         elif a != b:
             bad.append("from_json_value and from_json_str disagree: %r vs %r" % (a[:3] if a[0] != "ok" else "ok", b[:3] if b[0] != "ok" else "ok"))
     return bad
@@ -744,6 +746,26 @@ def bad_ext_in(j):
     return any(json.dumps(a) in t for _, a in BAD_EXT)
 
 
+POOL_VALID = {(EXT_FN[t], a) for t, xs in EXT_POOL.items() for a in xs}
+
+
+def all_calls_pool_valid(sxs):
+    """every constructor call in the model's result applies a constructor to a known-good string"""
+    for s in sxs:
+        t = s[0]
+        if t == "set":
+            if not all_calls_pool_valid(s[1]):
+                return False
+        elif t == "rec":
+            if not all_calls_pool_valid([x for _, x in s[1]]):
+                return False
+        elif t == "x":
+            args = s[2]
+            if len(args) != 1 or args[0][0] != "s" or (Str(s[1]).text(), Str(args[0][1]).text()) not in POOL_VALID:
+                return False
+    return True
+
+
 def compare_model(what, cmd, rust, model):
     """None if the model's answer and the implementation's agree, else a description"""
     if model == "bad_input" or model == "unknown_command" or not isinstance(model, list):
@@ -759,8 +781,9 @@ def compare_model(what, cmd, rust, model):
         if v[0] == "ok":
             m = canon({"context": [[Str(k).text(), sx_rval(x)] for k, x in model[1]]})["context"]
             return None if strip_sem(v[1]) == m else "parsed values differ"
-        if v[0] == "err" and v[2] == "Evaluation" and bad_ext_in(cmd["json"]):
-            return None     # a malformed extension string: evaluation of the constructor call is outside the model
+        if v[0] == "err" and v[2] == "Evaluation" and not all_calls_pool_valid([x for _, x in model[1]]):
+            return None     # a constructor call whose string is not one of the known-good pool: evaluating the
+                            # call is outside the model (C07); with pool strings only the implementation must accept
         return "model accepts, implementation rejects %r" % (v[:3],)
     if v[0] == "ok":
         return "model rejects (%s), implementation accepts" % model[1]
